@@ -8,7 +8,8 @@
    every run); inet_pton/inet_ntop/uuid_parse/uuid_unparse are universally quantified with named
    hypotheses.                                                                                  *)
 From OlaBase Require Import Bytes.
-From C20 Require Import Libc Spec Model Ipv6 ProofsDigits ProofsInt ProofsHex ProofsText ProofsIpv6 ProofsIpv6v4.
+From C20 Require Import Libc Spec Model Ipv6 ProofsDigits ProofsInt ProofsHex ProofsText ProofsIpv6 ProofsIpv6v4 ProofsExt ProofsPton4.
+From C20 Require Gen.
 Local Open Scope N_scope.
 
 (* ------------------------------------------------------------------------------------------------
@@ -326,6 +327,158 @@ Theorem c20_ipv6_roundtrip : forall a, length a = 16%nat -> bytes_ok a = true ->
 Proof. exact ipv6_roundtrip. Qed.
 Print Assumptions c20_ipv6_roundtrip.
 
+(* ================================================================================================
+   Extension round: exact acceptance (iff) for the composite types, the remaining public entry
+   points, hypothesis-free round trips on the libc models, exact DMX items, constants.           *)
+
+(* Constants the model writes as literals, regenerated from the headers on every run (Gen.v). *)
+Theorem c20_consts :
+  (N.of_nat DMX_UNIVERSE_SIZE = Gen.G_DMX_UNIVERSE_SIZE /\ Gen.G_DMX_UNIVERSE_SIZE = 512) /\
+  (Gen.G_MAC_LENGTH = 6 /\ Gen.G_CID_LENGTH = 16 /\ Gen.G_IPV6_LENGTH = 16 /\
+   Gen.G_INET6_ADDRSTRLEN = 46 /\ Gen.G_INET_ADDRSTRLEN = 16) /\
+  (UINT8_MAX = Gen.G_UINT8_MAX /\ UINT16_MAX = Gen.G_UINT16_MAX /\ UINT32_MAX = Gen.G_UINT32_MAX /\
+   UINT64_MAX = Gen.G_UINT64_MAX /\ ULLONG_MAX = Gen.G_ULLONG_MAX /\ LLONG_MAX = Gen.G_LLONG_MAX /\
+   TWO63 = Gen.G_NEG_INT64_MIN /\ INT64_MAX = Z.of_N Gen.G_INT64_MAX /\
+   INT64_MIN = (- Z.of_N Gen.G_NEG_INT64_MIN)%Z) /\
+  (Gen.G_INT8_MAX = 127 /\ Gen.G_NEG_INT8_MIN = 128 /\ Gen.G_INT16_MAX = 32767 /\ Gen.G_NEG_INT16_MIN = 32768 /\
+   Gen.G_INT32_MAX = 2147483647 /\ Gen.G_NEG_INT32_MIN = 2147483648) /\
+  (* LP64 (strtoul = strtoull, strtol = strtoll) and the ToHex field widths digits/4 *)
+  (Gen.G_SIZEOF_LONG = 8 /\ Gen.G_SIZEOF_INT = 4 /\ Gen.G_HEX_BIT_WIDTH = 4 /\
+   Gen.G_DIGITS_U8 = 8 /\ Gen.G_DIGITS_I8 = 7 /\ Gen.G_DIGITS_U64 = 64 /\ Gen.G_DIGITS_I64 = 63).
+Proof. repeat split; reflexivity. Qed.
+Print Assumptions c20_consts.
+
+(* StringToIntOrDefault<T> (the second public entry point of every StringToInt overload): it is
+   the parsed value when, and only when, StringToInt accepts, otherwise the alternative.          *)
+Theorem c20_or_default : forall (A : Type) (r : option A) (alt v : A),
+  (r = Some v -> or_default r alt = v) /\ (r = None -> or_default r alt = alt).
+Proof. intros A r alt v. split; intros ->; reflexivity. Qed.
+Print Assumptions c20_or_default.
+
+(* UID::FromString accepts EXACTLY the texts  4 hex digits ':' 8 hex digits  and returns the two
+   numbers they denote (there is no strict/lenient variant; nothing else is accepted).            *)
+Theorem c20_uid_exact : forall t esta dev, uid_from_string t = Some (esta, dev) <->
+  exists t0 t1, t = t0 ++ [58] ++ t1 /\ len t0 = 4 /\ len t1 = 8 /\ hex_form t0 /\ hex_form t1 /\
+                esta = text_value 16 t0 /\ dev = text_value 16 t1.
+Proof. exact uid_exact. Qed.
+Print Assumptions c20_uid_exact.
+
+(* MACAddress::FromString (StringToEther) accepts EXACTLY the texts with six ':'/'.' separated
+   fields, each a hex text denoting an octet <= 255, and returns those octets.                    *)
+Theorem c20_mac_exact : forall t m, mac_from_string t = Some m <->
+  (length (string_split [58; 46] t) = 6%nat /\
+   Forall2 (fun tok b => hex_form tok /\ b = text_value 16 tok /\ b <= 255) (string_split [58; 46] t) m).
+Proof. exact mac_exact. Qed.
+Print Assumptions c20_mac_exact.
+
+(* StringToBoolTolerant / StringToBool accept EXACTLY the listed words, case-insensitively; a text
+   containing a NUL (or any other extra character) is rejected.                                   *)
+Theorem c20_bool_tolerant_exact : forall t b,
+  (string_to_bool_tolerant t = Some b <->
+     (In (to_lower t) [s_true; s_t; s_1; s_on; s_enable; s_enabled] /\ b = true) \/
+     (In (to_lower t) [s_false; s_f; s_0; s_off; s_disable; s_disabled] /\ b = false)) /\
+  (string_to_bool t = Some b <->
+     (In (to_lower t) [s_true; s_t; s_1] /\ b = true) \/ (In (to_lower t) [s_false; s_f; s_0] /\ b = false)) /\
+  (In 0 t -> string_to_bool_tolerant t = None).
+Proof.
+  intros t b. split; [exact (string_to_bool_tolerant_spec t b)|].
+  split; [exact (string_to_bool_strict_words t b)|exact (bool_nul_rejected t)].
+Qed.
+Print Assumptions c20_bool_tolerant_exact.
+
+(* IPV4Address::FromString and IPV4SocketAddress::FromString, for ANY inet_pton: accepted EXACTLY
+   when the text is non-empty and inet_pton accepts its C string, resp. when it is  host ':' port
+   with such a host (no ':' in it) and a port text that strictly denotes a number <= 65535.       *)
+Theorem c20_ipv4_sockaddr_exact : forall pton t a port,
+  (ipv4_from_string pton t = Some a <-> (t <> [] /\ pton (cstr t) = Some a)) /\
+  (sockaddr_from_string pton t = Some (a, port) <->
+     exists h pt, t = h ++ [58] ++ pt /\ ~ In 58 h /\ h <> [] /\ pton (cstr h) = Some a /\
+                  exists rest, dec_form pt false port rest /\ port <= 65535 /\ (true = true -> rest = [])).
+Proof. intros pton t a port. split; [exact (ipv4_exact pton t a)|exact (sockaddr_exact pton t a port)]. Qed.
+Print Assumptions c20_ipv4_sockaddr_exact.
+
+(* The round trips of IPv4 addresses, socket addresses and CIDs WITHOUT hypotheses, for the
+   Libc.v models of inet_pton/inet_ntop/uuid_parse/uuid_unparse (the ones validated against the
+   platform on every run): every value of each type.                                              *)
+Theorem c20_net_roundtrip_libc :
+  (forall a port, length a = 4%nat -> bytes_ok a = true -> port <= 65535 ->
+     ipv4_from_string inet_pton4 (ipv4_to_string inet_ntop4 a) = Some a /\
+     sockaddr_from_string inet_pton4 (sockaddr_to_string inet_ntop4 (a, port)) = Some (a, port)) /\
+  (forall u, length u = 16%nat -> bytes_ok u = true ->
+     uuid_parse (uuid_unparse u) = Some u /\
+     cid_from_string uuid_parse (cid_to_string uuid_unparse u) = u).
+Proof.
+  split; [exact ipv4_libc_roundtrip|]. intros u Hl Hb. split.
+  - exact (proj1 (uuid_libc_roundtrip u Hl Hb)).
+  - exact (cid_libc_roundtrip u Hl Hb).
+Qed.
+Print Assumptions c20_net_roundtrip_libc.
+
+(* DmxBuffer::SetFromString, EVERY text: at most 512 slots; the slots are the items of the first
+   512 comma separated fields (further fields are ignored); an item with a leading decimal number
+   (blanks and sign allowed, anything may follow) becomes that number modulo 256 - i.e. the number
+   itself when it is in 0..255, the truncation of finding C20-dmx-atoi-truncation otherwise, with
+   strtol's saturation beyond long - and an item without a number becomes 0.  Nothing about the
+   text form remains unproved; what fails the property is exactly the out-of-range region.        *)
+Theorem c20_dmx_text_exact :
+  (forall input, dmx_set_from_string input =
+     match input with [] => [] | _ => map dmx_item (firstn 512 (string_split [44] input)) end) /\
+  (forall input, (length (dmx_set_from_string input) <= 512)%nat) /\
+  (forall tok neg m rest, dec_form (cstr tok) neg m rest ->
+     dmx_item tok =
+     if neg then (if 9223372036854775808 <? m then 0 else Z.to_N ((- Z.of_N m) mod 256))
+     else (if 9223372036854775807 <? m then 255 else m mod 256)) /\
+  (forall tok, (forall neg m rest, ~ dec_form (cstr tok) neg m rest) -> dmx_item tok = 0).
+Proof.
+  split; [exact dmx_set_from_string_unfold|]. split; [exact dmx_length|].
+  split; [exact dmx_item_exact|exact dmx_item_no_number].
+Qed.
+Print Assumptions c20_dmx_text_exact.
+
+(* IPv4 text without hypotheses: the inet_pton(AF_INET) model accepts EXACTLY the texts that
+   inet_ntop(AF_INET) prints - four canonical decimal numerals 0..255 (to_dec: digits denoting the
+   octet, c20_int_roundtrip's printer) separated by '.' - and returns that address.  Hence, for the
+   libc model, IPV4Address::FromString and IPV4SocketAddress::FromString accept a text only if it
+   denotes exactly the returned value, and reject everything else.                                *)
+Theorem c20_ipv4_exact_libc :
+  (forall t a, inet_pton4 t = Some a <->
+     (length a = 4%nat /\ Forall (fun b => b <= 255) a /\ t = inet_ntop4 a)) /\
+  (forall t a, ipv4_from_string inet_pton4 t = Some a <->
+     (t <> [] /\ length a = 4%nat /\ Forall (fun b => b <= 255) a /\ cstr t = inet_ntop4 a)) /\
+  (forall t a port, sockaddr_from_string inet_pton4 t = Some (a, port) <->
+     exists h pt, t = h ++ [58] ++ pt /\ ~ In 58 h /\ h <> [] /\
+                  length a = 4%nat /\ Forall (fun b => b <= 255) a /\ cstr h = inet_ntop4 a /\
+                  exists rest, dec_form pt false port rest /\ port <= 65535 /\ (true = true -> rest = [])).
+Proof. split; [exact pton4_exact|split; [exact ipv4_libc_exact|exact sockaddr_libc_exact]]. Qed.
+Print Assumptions c20_ipv4_exact_libc.
+
+(* The OLA-owned part of IPv6 and CID parsing, exactly: IPV6Address::FromString is inet_pton on the
+   C string of a non-empty text; CID::FromString never rejects - it is uuid_parse's value on the
+   C string, and the nil CID for every text uuid_parse refuses (for ANY uuid_parse).               *)
+Theorem c20_ipv6_cid_wrappers :
+  (forall t a, ipv6_from_string t = Some a <-> (t <> [] /\ ipv6_of_text (cstr t) = Some a)) /\
+  (forall (parse : str -> option (list N)) t,
+     (exists u, parse (cstr t) = Some u /\ cid_from_string parse t = u) \/
+     (parse (cstr t) = None /\ cid_from_string parse t = nil_uuid)).
+Proof.
+  split.
+  - intros t a. unfold ipv6_from_string. destruct t as [|c t].
+    + split; [discriminate|intros [H _]; congruence].
+    + split; [intros H; split; [discriminate|exact H]|intros [_ H]; exact H].
+  - exact cid_from_string_cases.
+Qed.
+Print Assumptions c20_ipv6_cid_wrappers.
+
+(* StringSplit (used by the UID, MAC and DMX parsers), any delimiter set: one token more than there
+   are delimiter characters, no token contains a delimiter, and (single delimiter) joining the
+   tokens with it gives the input back - so no character of the text is lost or invented.        *)
+Theorem c20_split : forall delims input,
+  length (string_split delims input) = S (count_chars delims input) /\
+  Forall (fun tok => forall c, In c tok -> mem_char delims c = false) (string_split delims input) /\
+  (forall d, delims = [d] -> join [d] (string_split delims input) = input).
+Proof. exact string_split_spec. Qed.
+Print Assumptions c20_split.
+
 (* ---- non-vacuity ------------------------------------------------------------------------------- *)
 (* the hypotheses on the external functions are jointly satisfiable ... *)
 Example ex_net_hyps_sat :
@@ -379,4 +532,12 @@ Example ex_ipv6_forms :
   v4_form (words_of_bytes (repeat 0 10 ++ [255; 255; 1; 2; 3; 4])) = true /\
   v4_form (words_of_bytes (repeat 0 15 ++ [1])) = false /\
   ipv6_of_text (ipv6_to_text (repeat 0 10 ++ [255; 255; 1; 2; 3; 4])) = Some (repeat 0 10 ++ [255; 255; 1; 2; 3; 4]).
+Proof. vm_compute. repeat split; reflexivity. Qed.
+
+Example ex_ext :
+  uid_from_string [55; 97; 55; 48; 58; 48; 48; 48; 48; 48; 48; 48; 49] = Some (31344, 1) /\
+  string_to_bool_tolerant [69; 110; 65; 98; 108; 101; 100] = Some true /\
+  string_to_bool_tolerant [116; 0] = None /\
+  dmx_set_from_string [32; 50; 54; 54; 44; 44; 45; 49; 44; 49; 120] = [10; 0; 255; 1] /\
+  or_default (string_to_u8 true [50; 53; 54]) 42 = 42.
 Proof. vm_compute. repeat split; reflexivity. Qed.
